@@ -195,7 +195,10 @@ def do_check(args, engine, lanes, prop, master_seed, t_start, ctx):
             classes.setdefault(c, []).append((j, r))
     exit_code = 0
     known_lines = []
-    for c, items in sorted(classes.items(), key=lambda kv: str(kv[0])):
+    max_classes = int(os.environ.get("VERIF_MAX_CLASSES", "4"))
+    if len(classes) > max_classes:
+        log(f"{len(classes)} violation classes; reporting the first {max_classes} (by class name), the others: " + "; ".join(str(c) for c in sorted(classes, key=str)[max_classes:])[:1500])
+    for c, items in sorted(classes.items(), key=lambda kv: str(kv[0]))[:max_classes]:
         j, r = items[0]
         if r.get("status") in ("timeout", "died"):
             r2 = lanes.run([j])[0]
